@@ -24,9 +24,12 @@ CLAIMED = {
              "uninterpreted function: Each / Each-2 / Each-left / Each-right / Each-pair apply the verb to exactly the members (pairs, "
              "neighbours) in order, Over and Over-neutral are the left fold (Lean: foldl_cons), Scan-over's last member is the fold "
              "(Lean: scanl_last), Converge/While/Iterate loop contracts; the ufunc shortcut and dispatch tables map each operator to "
-             "the reduce/accumulate of THAT operator under the stated guards (exhaustive table check).",
-        note="Assumed: functools.reduce / itertools.accumulate as left fold / prefix folds; NumPy ufunc.reduce agrees with the verb on "
-             "rank-1 numeric arrays (assumed contract); string results re-joined. Termination of Converge/While is not claimed.",
+             "the reduce/accumulate of THAT operator under the stated guards (exhaustive table check); atom right operand of Each-left / "
+             "Each-right gives f(a;b) / f(b;a); a string operand of Each-pair reaches the verb as characters; the compiled shortcuts of "
+             "f/a and f\\a denote the adverb's value (rows of C05's value-equivalence check).",
+        note="Assumed: functools.reduce / itertools.accumulate as left fold / prefix folds; NumPy ufunc.reduce agrees with the verb "
+             "(assumed identities); string operands of the other adverbs and adverb chains are not under contract. Termination of "
+             "Converge/While is not claimed.",
         ref="DESIGN.md section 4 C02",
         technique=TECH + "; Lean 4 for the fold lemmas; exhaustive enumeration of the operator shortcut table"),
     'C04': dict(
@@ -89,9 +92,13 @@ CLAIMED = {
              "functions read back as KGFnWrapper bound to the name); KGLambda collects the first n reserved symbols (positional) and "
              "calls the Python callable exactly once with exactly the frame values in order, klong first when requested, returning its "
              "result; KGFnWrapper.__call__ rejects a wrong argument count before any evaluation, uses the current definition when it is "
-             "still a function (the original otherwise) and makes exactly one klong.call(KGCall(fn.a, args, fn.arity)).",
+             "still a function (the original otherwise) and makes exactly one klong.call(KGCall(fn.a, args, fn.arity)); "
+             "KGFnWrapper.__init__ stores the name resolved at construction; _resolve_fn resolves a symbol bound to a bare KGLambda to "
+             "that callable; the arity given to a function at parse time (get_fn_arity._e, structural recursion, modular) is the "
+             "number of distinct function variables occurring anywhere in its body.",
         note="Assumed: inspect.signature and np.asarray as pure functions; the evaluator contract of C03; the call frame maps x,y,z "
-             "positionally (built by _eval_fn, not under contract); _handle_import and _find_symbol not under contract.",
+             "positionally (built by _eval_fn, not under contract); _handle_import and _find_symbol not under contract; a Python None "
+             "argument is an empty projection slot (see the C20 known finding).",
         ref="DESIGN.md section 4 C09, Appendix A.4"),
     'C07': dict(
         text="Frame postconditions of the real gradient entry points on the normal AND the exceptional exit, the differentiated "
@@ -117,7 +124,9 @@ CLAIMED = {
         text="Strings: the real writer's loop proves kg_write_string(s) = '\"' ++ enc(s) ++ '\"' and the real reader's loop proves "
              "read_string(t,i) = dec(t,i) against positional spec functions; Lean proves dec(enc s ++ '\"' ++ tail) = (s, |enc s|+1) "
              "under the follow condition; characters (0cX), symbols (:name) and the dispatch order of kg_write over the class lattice. "
-             "Lists, numbers, dictionaries and Form/Format: bounded stand-in per value kind only (labelled, not counted as proved).",
+             "read_list returns exactly the sequence of lexeme values between the brackets, in order (whole-view loop invariant: no "
+             "member is re-interpreted). Numbers, dictionaries, whole lists end-to-end and Form/Format: bounded stand-in per value kind "
+             "only (labelled, not counted as proved).",
         note="Assumed: hand pairing of the SMT / Python / Lean renderings of the spec functions (narrowed by a bounded cross-check each "
              "run); float/int repr round trips. Known finding: a written dictionary reads back as an unevaluated call object.",
         ref="DESIGN.md section 4 C11",
@@ -171,7 +180,8 @@ CLAIMED = {
              "receives, decodes and dispatches one message to .ws.m exactly once in order; the connection is pushed for the call and "
              "popped on every exit; result or failure delivered to the waiting future exactly once.",
         note="Assumed: aiohttp routing and request parsing, websockets, JSON codec, sockets ('after .webc the port no longer answers' "
-             "rests on aiohttp).",
+             "rests on aiohttp). Bounded stand-in: 13 JSON kinds of websocket message through klong['.ws.m'](conn, msg); known "
+             "finding: a JSON null message is not handed to the handler body (known_findings.json).",
         ref="DESIGN.md section 4 C20"),
     'C15': dict(
         text="Representation invariant of the real KGTimerHandler / _call_periodic / run closure over ghost state (stopped flag, number of "
